@@ -122,6 +122,10 @@ def run(tier, seed):
                             isrc.replace('__FIRST__', '0').replace('__HOST__', str(host)).replace('__DRDC__', repr(drdc))); hs.append(h)
                 batch.add(h, T, only=['relative_ok'],
                           bounds='R[..]C[..] offsets in {-1,1,2}^2 from host cell #%d, second corner +%d rows +%d columns (boolean selectors)' % (host, drdc[0], 2 * drdc[1]))
+        tsrc = open(os.path.join(ROOT, 'harness', 'c04_tokens.py')).read()
+        for dm in ((0, 15) if quick else (0, 5, 10, 15, 3, 12)):
+            h = Harness(ck, 'c04_tokens_d%d' % dm, tsrc.replace('__D__', str(dm))); hs.append(h)
+            batch.add(h, 300 if quick else 900, only=['token_ok'], bounds='A1 range texts with both corners over 8 boundary columns (A ... XFD) x 8 boundary rows (1 ... 1048576), $ markers mask %d, either letter case: ONE reference token naming exactly that rectangle (real tokenizer)' % dm)
         batch.run()
     finally:
         for h in hs:
